@@ -64,8 +64,12 @@ def plan(tier, seed):
     i = 0
     for name in names:
         parts = 1 if tier == "quick" else 6
+        # thorough: L <= 5 where the family alphabet has at most 10 unit kinds (111k histories), L <= 4 for the larger ones
+        Lf = L
+        if tier != "quick" and U.FAMILIES[name]["sx"] * U.FAMILIES[name]["sy"] > 2:
+            Lf = 4
         for p in range(parts):
-            shards.append({"shard": i, "mode": "exhaustive", "family": name, "L": L, "part": p, "parts": parts})
+            shards.append({"shard": i, "mode": "exhaustive", "family": name, "L": Lf, "part": p, "parts": parts})
             i += 1
     # level-pattern stratum: for the families with a real ordering pattern, every body of length <= 4 (quick) / 6
     # (thorough) over a reduced alphabet (picture, first fragment, each complete-picture fragment, padding, header)
@@ -75,7 +79,7 @@ def plan(tier, seed):
             shards.append({"shard": i, "mode": "levelmix", "family": name, "L": 4 if tier == "quick" else 6})
             i += 1
     nrand = 16 if tier == "quick" else 64
-    per = 650 if tier == "quick" else 40000
+    per = 650 if tier == "quick" else 12000
     for s in range(nrand):
         shards.append({"shard": i, "mode": "random", "n": per})
         i += 1
@@ -313,7 +317,7 @@ def run_case(case, ctx):
 
 def floor(agg, tier):
     c = agg["counters"]
-    s = 1 if tier == "quick" else 10
+    s = 1 if tier == "quick" else 8
     miss = []
     if c.get("agree_accept", 0) < 1500 * s:
         miss.append("fewer than %d accepted histories agreed (%d)" % (1500 * s, c.get("agree_accept", 0)))
@@ -331,4 +335,4 @@ def floor(agg, tier):
 
 def evidence_extra(agg, tier):
     return {"exhaustive_box": "every history SH.u1..uL, L<=%d, over each family's full unit alphabet (correct offsets, consecutive numbers)%s"
-            % (3 if tier == "quick" else 5, "" if tier == "quick" else " -- enumerated completely across the 6 parts per family")}
+            % (3 if tier == "quick" else 5, "" if tier == "quick" else " (L<=4 for the two families with more than two slices) -- enumerated completely across the 6 parts per family")}
